@@ -16,6 +16,9 @@ of a suspend point / final suspend are symmetric transfers) and *logs every dyna
 library performs, by category:
 
 * `frame`  — one per coroutine / generator created with a heap frame (none under the non-heap storage policy),
+* `rgrowth` — the same allocation when the growing suspend point is the one a *resolution* builds (`resume_chain_lk`
+             collects every released coroutine in one suspend point): more than `inlineCount` coroutine waiters on one
+             future — the second listed finding (the statement promises allocation-free resolution for every number of waiters),
 * `growth` — `new Ptr[count * growthFactor]` of `suspend_point::add` when a suspend point already holds
              `inlineCount` (or `capacity`) handles; released by `clear_internal` / `operator<<`,
 * `rq`     — allocations of the thread-local `std::deque` ready queue of `coro_queue` (libstdc++: map + first node
@@ -44,7 +47,7 @@ def nSp : Nat := 2
 def maxId : Nat := 160
 
 inductive Cat where
-  | frame | growth | rq | other
+  | frame | growth | rgrowth | rq | other
   deriving DecidableEq, Repr, Inhabited
 
 inductive Kind where
@@ -122,6 +125,7 @@ structure Mx where
 structure Sp where
   handles : List Nat := []
   ext : Option Nat := none    -- capacity of the heap array when in heap mode
+  res : Bool := false         -- (category of the heap array) it was allocated while a resolution collected handles
   deriving Repr, Inhabited
 
 structure Gen where
@@ -153,10 +157,12 @@ structure State where
   rq : Rq := {}
   tmp : Sp := {}
   pend : Option Nat := none
+  pendR : Bool := false
   moved : Bool := false
   out : List Tok := []
   -- ghost
   peak : Nat := 0        -- largest number of handles any suspend point has held
+  rpeak : Nat := 0       -- largest number of coroutines one resolution has released (handles collected by `resume_chain_lk`)
   pushes : Nat := 0      -- enqueues on the ready queue so far
   pops : Nat := 0
 
@@ -188,41 +194,53 @@ def freeFrame (s : State) (heap : Bool) : State := if heap then emit s (Tok.free
 
 def Sp.count (sp : Sp) : Nat := sp.handles.length
 
-/-- allocation events of `suspend_point::add` on `sp`, newest first -/
-def Sp.addToks (sp : Sp) : List Tok :=
+def catOf (r : Bool) : Cat := if r then .rgrowth else .growth
+
+/-- allocation events of `suspend_point::add` on `sp`, newest first; `r` = the add is made by a resolution collecting handles -/
+def Sp.addToks (sp : Sp) (r : Bool) : List Tok :=
   match sp.ext with
   | some cap =>
-      if sp.count = cap then [Tok.free .growth cap, Tok.alloc .growth (sp.count * growthFactor) sp.count] else []
+      if sp.count = cap then [Tok.free (catOf sp.res) cap, Tok.alloc (catOf r) (sp.count * growthFactor) sp.count] else []
   | none =>
-      if sp.count < inlineCount then [] else [Tok.alloc .growth (sp.count * growthFactor) sp.count]
+      if sp.count < inlineCount then [] else [Tok.alloc (catOf r) (sp.count * growthFactor) sp.count]
 
 def Sp.addExt (sp : Sp) : Option Nat :=
   match sp.ext with
   | some cap => if sp.count = cap then some (sp.count * growthFactor) else some cap
   | none => if sp.count < inlineCount then none else some (sp.count * growthFactor)
 
-def Sp.add (sp : Sp) (h : Nat) : Sp := { handles := sp.handles ++ [h], ext := sp.addExt }
+def Sp.addRes (sp : Sp) (r : Bool) : Bool :=
+  match sp.ext with
+  | some cap => if sp.count = cap then r else sp.res
+  | none => if sp.count < inlineCount then sp.res else r
 
-/-- `tmp << h` -/
+def Sp.add (sp : Sp) (h : Nat) (r : Bool) : Sp := { handles := sp.handles ++ [h], ext := sp.addExt, res := sp.addRes r }
+
+/-- `tmp << h` (hand-over of a mutex, start of a coroutine) -/
 def addTmp (s : State) (h : Nat) : State :=
-  { s with tmp := s.tmp.add h, out := s.tmp.addToks ++ s.out, peak := max s.peak (s.tmp.count + 1) }
+  { s with tmp := s.tmp.add h false, out := s.tmp.addToks false ++ s.out, peak := max s.peak (s.tmp.count + 1) }
+
+/-- `ret << y->resume()` in `resume_chain_lk`: a resolution collects one more released coroutine -/
+def addTmpR (s : State) (h : Nat) : State :=
+  { s with tmp := s.tmp.add h true, out := s.tmp.addToks true ++ s.out, peak := max s.peak (s.tmp.count + 1),
+           rpeak := max s.rpeak (s.tmp.count + 1) }
 
 /-- `S_k << h` -/
 def addSp (s : State) (k h : Nat) : State :=
-  { s with sps := upd s.sps k ((s.sps k).add h), out := (s.sps k).addToks ++ s.out,
+  { s with sps := upd s.sps k ((s.sps k).add h false), out := (s.sps k).addToks false ++ s.out,
            peak := max s.peak ((s.sps k).count + 1) }
 
-def freeExt (s : State) : Option Nat → State
-  | some cap => emit s (Tok.free .growth cap)
+def freeExt (s : State) (r : Bool) : Option Nat → State
+  | some cap => emit s (Tok.free (catOf r) cap)
   | none => s
 
 /-- `clear_internal()` of the suspend point in `tmp` -/
-def freeTmp (s : State) : State := clearTmp (freeExt s s.tmp.ext)
+def freeTmp (s : State) : State := clearTmp (freeExt s s.tmp.res s.tmp.ext)
 
 /-- ordinary code starts flushing the suspend point in `tmp`: its handles are taken, its heap array stays until the end -/
-def stashTmp (s : State) : State := { s with pend := s.tmp.ext, tmp := {} }
+def stashTmp (s : State) : State := { s with pend := s.tmp.ext, pendR := s.tmp.res, tmp := {} }
 
-def freePend (s : State) : State := { freeExt s s.pend with pend := none }
+def freePend (s : State) : State := { freeExt s s.pendR s.pend with pend := none, pendR := false }
 
 /-- the suspend point object `S_k` is moved into `tmp` -/
 def loadSp (s : State) (k : Nat) : State := { s with tmp := s.sps k, sps := upd s.sps k {} }
@@ -241,7 +259,7 @@ then its heap array (if any) is released -/
 def mergeTmpInto (s : State) (k : Nat) : State := freeTmp (addAllSp s k s.tmp.handles)
 
 /-- destructor of the suspend point object `S_k` (empty by now, but its heap array may still be there) -/
-def killSp (s : State) (k : Nat) : State := { freeExt s (s.sps k).ext with sps := upd s.sps k {} }
+def killSp (s : State) (k : Nat) : State := { freeExt s (s.sps k).res (s.sps k).ext with sps := upd s.sps k {} }
 
 /-! ### the thread's ready queue (`coro_queue::queue_impl::_queue`) -/
 
@@ -318,7 +336,7 @@ def dropActive (s : State) : State := freeTmp (pushAll s s.tmp.handles)
 /-- `resume_chain_lk`: walk the awaiter chain, collect coroutine handles in `tmp`, fire callbacks -/
 def walk (s : State) (i : Nat) : List Waiter → State
   | [] => s
-  | .coro j :: ws => walk (addTmp s j) i ws
+  | .coro j :: ws => walk (addTmpR s j) i ws
   | .cb :: ws => walk (emit s (Tok.cb i)) i ws
   | .sync :: ws => walk s i ws
 
